@@ -1059,9 +1059,10 @@ func (c *cluster) handleNodeAction(nodeAction nodeAction) error {
 	c.logger.Printf("wait for jobResult")
 	jobResult := <-j.result
 
-	// Make sure j.run() didn't return an error.
-	if eg.Wait() != nil {
-		return errors.Wrap(err, "running job")
+	// Make sure j.run() didn't return an error. A failed run has reported
+	// resizeJobStateAborted, so the job is completed below like any abort.
+	if err := eg.Wait(); err != nil {
+		c.logger.Printf("running job: err=%s", err)
 	}
 
 	c.logger.Printf("received jobResult: %s", jobResult)
